@@ -51,7 +51,7 @@ class Job:
         self.name = "%s/%s%s" % (self.variant, self.workload, ("/" + self.focus) if self.focus else "")
 
 
-def run_chunk(job, tier, a, b, timeout_s):
+def run_chunk(job, tier, a, b, timeout_s, keep_stderr=None):
     """Run seeds a..b in one worker process. Restart after a dead worker. Returns (results, crashes)."""
     results, crashes = [], []
     cur = a
@@ -65,6 +65,8 @@ def run_chunk(job, tier, a, b, timeout_s):
             rc, out, err = p.returncode, p.stdout, p.stderr
         except subprocess.TimeoutExpired as e:
             rc, out, err = -999, (e.stdout or b"").decode(errors="replace") if isinstance(e.stdout, bytes) else (e.stdout or ""), ""
+        if keep_stderr is not None:
+            keep_stderr.append((a, b, err))
         last_begin = None; done = set()
         for line in out.splitlines():
             if line.startswith("@@BEGIN "):
@@ -174,14 +176,53 @@ def replay_file(path, quiet=False):
     if not os.path.exists(simrun_path(variant)):
         if not build([variant]):
             return False, "build failed"
-    tmp = os.path.join(os.environ.get("TMPDIR", "/dev/shm"), "replay_%d.plan" % os.getpid())
+    tmp = os.path.join(os.environ.get("TMPDIR", "/dev/shm"), "replay_%d_%d.plan" % (os.getpid(), threading.get_ident()))
     open(tmp, "w").write("\n".join(doc["plan"]) + "\n")
     env = dict(os.environ); env.update(doc.get("env", {})); env.setdefault("TMPDIR", "/dev/shm")
+    if doc.get("differential") or doc.get("valgrind") or doc.get("tsan_sig"):
+        return replay_stage(doc, variant, tmp, env, quiet)
     try:
         p = subprocess.run(doc.get("wrapper", []) + [simrun_path(variant), "--plan", tmp] + doc.get("args", []), stdout=subprocess.PIPE, stderr=subprocess.PIPE, text=True, errors="replace", timeout=1800, env=env)
     finally:
         try: os.unlink(tmp)
         except OSError: pass
+    if doc.get("crash_kind"):
+        pass
+    return replay_rest(doc, p, quiet)
+
+
+def replay_stage(doc, variant, tmp, env, quiet):
+    if doc.get("differential"):
+        fps = []
+        for fill in (0, 127):
+            e2 = dict(env); e2["ASAN_OPTIONS"] = "malloc_fill_byte=%d:max_malloc_fill_size=268435456" % fill
+            open(tmp, "w").write("\n".join(doc["plan"]) + "\n")
+            q = subprocess.run([simrun_path(variant), "--plan", tmp], stdout=subprocess.PIPE, stderr=subprocess.PIPE, text=True, errors="replace", timeout=1800, env=e2)
+            m = re.search(r'"fingerprint":"([0-9a-f]+)"', q.stdout); fps.append(m.group(1) if m else "dead:%d" % q.returncode)
+        try: os.unlink(tmp)
+        except OSError: pass
+        ok = fps[0] != fps[1]
+        if not quiet: log("replay: fill 0x00 -> %s, fill 0x7f -> %s: %s" % (fps[0], fps[1], "REPRODUCED" if ok else "not reproduced"))
+        return ok, "fingerprints %s / %s" % tuple(fps)
+    if doc.get("valgrind") or doc.get("tsan_sig"):
+        tries = 1 if doc.get("valgrind") else 5
+        for _ in range(tries):
+            open(tmp, "w").write("\n".join(doc["plan"]) + "\n")
+            wrap = ["valgrind", "-q", "--error-exitcode=88", "--num-callers=25"] if doc.get("valgrind") else []
+            q = subprocess.run(wrap + [simrun_path(variant), "--plan", tmp], stdout=subprocess.PIPE, stderr=subprocess.PIPE, text=True, errors="replace", timeout=3000, env=env)
+            if doc.get("valgrind"):
+                ok = q.returncode == 88 or "== Conditional jump" in q.stderr or "== Invalid " in q.stderr or "== Use of uninit" in q.stderr
+            else:
+                ok = any(("%s|%s|%s" % (k, f[0], f[1])) == doc["tsan_sig"] for k, f, b in tsan_reports(q.stderr))
+            if ok: break
+        try: os.unlink(tmp)
+        except OSError: pass
+        if not quiet: log("replay: %s" % ("REPRODUCED" if ok else "not reproduced")); log(q.stderr[-2000:])
+        return ok, "stage replay"
+    return False, "unknown stage doc"
+
+
+def replay_rest(doc, p, quiet):
     if doc.get("crash_kind"):
         kind = FATAL_KIND.get(p.returncode, "signal" if p.returncode < 0 else "exit_%d" % p.returncode)
         ok = (kind == doc["crash_kind"]) and (not doc.get("crash_sig") or doc["crash_sig"] in (p.stderr + p.stdout))
@@ -271,6 +312,128 @@ def minimise_crash(job, tier, crash):
             break
         chunk = chunk // 2 if not progress else min(chunk, max(1, len(ops) // 2))
     return "\n".join(head + ops), tries[0]
+
+
+# ------------------------------------------------------------------------------------------------
+# extra stages of a check (C10): poison differential, valgrind sampling, TSan free-running sampling
+def parallel_map(fn, items, nthreads):
+    out = [None] * len(items); q = queue.Queue()
+    for i, it in enumerate(items): q.put((i, it))
+    def w():
+        while True:
+            try: i, it = q.get_nowait()
+            except queue.Empty: return
+            out[i] = fn(it)
+    ts = [threading.Thread(target=w, daemon=True) for _ in range(min(nthreads, max(1, len(items))))]
+    for t in ts: t.start()
+    for t in ts: t.join()
+    return out
+
+
+def stage_poison(prop, st, tier, seed0, known):
+    """Same plan under two heap fill bytes must give the same event log."""
+    n = st["n"][tier]; viol = []; cov = {"poison_pairs": 0, "poison_mismatches": 0}
+    for jd in st["jobs"]:
+        base = seed0 * 1000003 + 7000000
+        items = [(base + i * jd.get("chunk", 5), base + (i + 1) * jd.get("chunk", 5) - 1) for i in range(max(1, int(n * jd.get("share", 1.0) / jd.get("chunk", 5))))]
+        def run_both(rng):
+            res = {}
+            for fill in (0, 127):
+                d = dict(jd); d["env"] = {"ASAN_OPTIONS": "malloc_fill_byte=%d:max_malloc_fill_size=268435456" % fill}; d["dual"] = 0.0
+                r, c = run_chunk(Job(d), tier, rng[0], rng[1], 900)
+                res[fill] = ({x["seed"]: x for x in r}, c)
+            return res
+        for both in parallel_map(run_both, items, NPROC // 2):
+            a, b = both[0][0], both[127][0]
+            for seed in sorted(set(a) & set(b)):
+                cov["poison_pairs"] += 1
+                if a[seed]["fingerprint"] != b[seed]["fingerprint"] or a[seed]["ok"] != b[seed]["ok"]:
+                    cov["poison_mismatches"] += 1
+                    viol.append(("uninit.poison_differential", "event log of %s seed %d depends on the heap fill byte (0x00: %s, 0x7f: %s)" % (jd["workload"], seed, a[seed]["fingerprint"], b[seed]["fingerprint"]),
+                                 {"seed": seed, "workload": jd["workload"], "_variant": jd["variant"], "focus": jd.get("focus", ""), "differential": True}))
+    return viol, cov
+
+
+def first_repo_frames(text, n=2):
+    fr = []
+    for m in re.finditer(r"(?:#\d+ 0x[0-9a-f]+ in |(?:at|by) 0x[0-9A-Fa-f]+: )(.+?) \(?(/?[^\s:()]+):(\d+)\)?", text):
+        path = m.group(2)
+        if "/repo/" in path or path.startswith(REPO) or (("/" not in path) and path.endswith((".cpp", ".hpp")) and "simgomp" not in path and "w1_" not in path and "harness" not in path):
+            fr.append("%s %s" % (m.group(1).split("(")[0][-60:], os.path.basename(path)))
+            if len(fr) >= n: break
+    return fr
+
+
+def stage_valgrind(prop, st, tier, seed0, known):
+    n = st["n"][tier]; viol = []; cov = {"valgrind_plans": 0, "valgrind_errors": 0}
+    items = []
+    for jd in st["jobs"]:
+        base = seed0 * 1000003 + 8000000
+        k = max(1, int(n * jd.get("share", 1.0)))
+        items += [(jd, base + i) for i in range(k)]
+    def one(it):
+        jd, seed = it; d = dict(jd); d["wrapper"] = ["valgrind", "-q", "--error-exitcode=88", "--num-callers=25", "--errors-for-leak-kinds=none", "--leak-check=no"]; d["dual"] = 0.0
+        errs = []
+        r, c = run_chunk(Job(d), tier, seed, seed, 1500, keep_stderr=errs)
+        return jd, seed, r, c, errs
+    for jd, seed, r, c, errs in parallel_map(one, items, NPROC):
+        cov["valgrind_plans"] += 1
+        text = "\n".join(e[2] for e in errs)
+        if c or "== Conditional jump" in text or "== Use of uninitialised" in text or "== Invalid " in text:
+            cov["valgrind_errors"] += 1
+            m = re.search(r"==\d+== ((?:Conditional|Use of uninit|Invalid|Syscall param|Mismatched|Source and dest)[^\n]*)", text)
+            what = m.group(1) if m else "valgrind error"
+            fr = first_repo_frames(text[m.start():] if m else text, 1)
+            viol.append(("memcheck." + what.split(" ")[0].lower(), "valgrind memcheck on %s seed %d: %s at %s" % (jd["workload"], seed, what, fr[0] if fr else "?"),
+                         {"seed": seed, "workload": jd["workload"], "_variant": jd["variant"], "focus": jd.get("focus", ""), "valgrind": True, "report": text[:3000]}))
+    return viol, cov
+
+
+def tsan_reports(text):
+    out = []
+    for blk in text.split("=================="):
+        m = re.search(r"WARNING: ThreadSanitizer: ([^(\n]*)", blk)
+        if not m: continue
+        parts = re.split(r"\n  (?=Previous |Location|Thread T|Mutex)", blk)
+        frames = []
+        for p in parts[:2]:
+            f = first_repo_frames(p, 1)
+            frames.append(f[0] if f else None)
+        if all(frames) and len(frames) == 2:
+            out.append((m.group(1).strip(), tuple(sorted(frames)), blk[:2500]))
+    return out
+
+
+def stage_tsan(prop, st, tier, seed0, known):
+    n = st["n"][tier]; viol = []; cov = {"tsan_runs": 0, "tsan_reports": 0, "tsan_note": "free-running mode: real concurrency under pthread primitives, observational (a reported race is re-searched in up to 5 fresh runs of the seed)"}
+    items = []
+    for jd in st["jobs"]:
+        base = seed0 * 1000003 + 9000000
+        items += [(jd, base + i) for i in range(max(1, int(n * jd.get("share", 1.0))))]
+    def one(it):
+        jd, seed = it; d = dict(jd); d["dual"] = 0.0; errs = []
+        r, c = run_chunk(Job(d), tier, seed, seed, 900, keep_stderr=errs)
+        return jd, seed, r, c, "\n".join(e[2] for e in errs)
+    seen = {}
+    for jd, seed, r, c, text in parallel_map(one, items, max(2, NPROC // 4)):
+        cov["tsan_runs"] += 1
+        for kind, frames, blk in tsan_reports(text):
+            cov["tsan_reports"] += 1
+            sig = "%s|%s|%s" % (kind, frames[0], frames[1])
+            if sig not in seen:
+                seen[sig] = (jd, seed, blk)
+    for sig, (jd, seed, blk) in seen.items():
+        viol.append(("tsan." + sig.split("|")[0].replace(" ", "_"), "ThreadSanitizer (free-running team) on %s seed %d: %s" % (jd["workload"], seed, sig),
+                     {"seed": seed, "workload": jd["workload"], "_variant": jd["variant"], "focus": jd.get("focus", ""), "tsan_sig": sig, "report": blk}))
+    return viol, cov
+
+
+STAGES = {"poison": stage_poison, "valgrind": stage_valgrind, "tsan": stage_tsan}
+
+
+def plan_text_for(variant, workload, tier, seed, focus):
+    cmd = [simrun_path(variant), "--workload", workload, "--tier", tier, "--seeds", "%d:%d" % (seed, seed), "--print-plan"] + (["--focus", focus] if focus else [])
+    return subprocess.run(cmd, stdout=subprocess.PIPE, stderr=subprocess.PIPE, text=True).stdout
 
 
 def main():
@@ -381,6 +544,31 @@ def run_property(prop, spec, tier, seed0):
             log("VIOLATION property=%s replay=%s" % (prop, path)); exit_code = 1
         else:
             log("harness failure: crash %s did not replay from %s" % (sig, path)); exit_code = max(exit_code, 2) if exit_code != 1 else 1
+    # ---- extra stages (poison differential, valgrind, TSan)
+    stage_cov = {}; stage_classes = 0
+    for st in spec.get("stages", []):
+        need = sorted(set(j["variant"] for j in st["jobs"]))
+        if not build(need):
+            return 2
+        sviol, scov = STAGES[st["type"]](prop, st, tier, seed0, known)
+        stage_cov.update(scov)
+        done_cl = set()
+        for clause, detail, info in sviol:
+            k = known_for(known, prop, clause, detail)
+            if k:
+                viol_known.append(({"seed": info["seed"]}, {"clause": clause, "detail": detail}, k)); continue
+            if (clause, info.get("tsan_sig", "")) in done_cl and st["type"] != "tsan":
+                continue
+            done_cl.add((clause, info.get("tsan_sig", "")))
+            plan = plan_text_for(info["_variant"], info["workload"], tier, info["seed"], info.get("focus", ""))
+            extra = {k2: info[k2] for k2 in ("differential", "valgrind", "tsan_sig", "report") if k2 in info}
+            path = write_replay(prop, {"seed": info["seed"], "workload": info["workload"], "_variant": info["_variant"]}, {"clause": clause, "detail": detail}, plan, extra)
+            ok, msg = replay_file(path, quiet=True)
+            if ok:
+                log("violation class %s: %s" % (clause, detail)); log("VIOLATION property=%s replay=%s" % (prop, path)); exit_code = 1; stage_classes += 1
+            else:
+                log("harness failure: %s (%s) did not replay from %s" % (clause, detail[:160], path))
+                if exit_code == 0: exit_code = 2
     seen_known = set()
     for r, v, k in viol_known:
         key = (k["clause"], k["match"])
@@ -414,7 +602,7 @@ def run_property(prop, spec, tier, seed0):
     zero_probes = [p for p in spec.get("expect_probes", []) if probes.get(p, 0) == 0]
     ev = {
         "property_id": prop, "tier": tier, "seed": seed0, "level": spec.get("level", "exploration"), "wall_s": round(wall, 2),
-        "violations": len([1 for _ in by_class]) + len(crash_classes),
+        "violations": len([1 for _ in by_class]) + len(crash_classes) + stage_classes,
         "coverage": {
             "evaluations": max(1, len(results) + len(crashes)),
             "distinct_nontrivial": len(nontrivial),
@@ -426,7 +614,7 @@ def run_property(prop, spec, tier, seed0):
             "per_job": per_job, "violations_of_other_properties_seen": foreign,
             "other_worker_deaths": [{"job": c["_job"], "seed": c["seed"], "kind": c["kind"], "sig": "|".join(crash_signature(c["stderr"]))} for c in other_crashes[:10]],
             "known_findings_seen": sorted(set(k["what"] for _, _, k in viol_known)),
-            "determinism_gate_sampled_fraction": jobs[0].dual if jobs else 0, "nondeterministic_plans": len(nondet),
+            "determinism_gate_sampled_fraction": jobs[0].dual if jobs else 0, "nondeterministic_plans": len(nondet), "stages": stage_cov,
             "real_vs_stub": {"real": "every line under /repo/src, /repo/include, lib/tinyxml2, lib/delaunator (compiled from the working tree)", "stub": "libgomp -> simgomp (seeded scheduler); std::chrono::system_clock::now; rand/srand; main() replaced by the driver"},
         },
         "assumptions": spec.get("assumptions", []),
